@@ -675,6 +675,113 @@ pub fn c18_random(ctx: &Ctx, pool: &PhrasePool, rng: &mut Rng, seed: u64) -> His
     History { property: "C18".into(), seed, label: format!("{n} queries on one {label} database"), steps }
 }
 
+/// Spellings that a careless normalisation (case folding, blank collapsing, word sorting) would
+/// merge with `base` although the search treats some of them differently (upper-case OR / AND /
+/// NOT are operators of the underlying query parser, lower-case ones are words).
+pub fn confusables(base: &str, rng: &mut Rng) -> Vec<String> {
+    let words: Vec<&str> = base.split_whitespace().collect();
+    let mut out = vec![base.to_string(), base.to_uppercase(), base.to_lowercase()];
+    let title: Vec<String> = words
+        .iter()
+        .map(|w| {
+            let mut c = w.chars();
+            match c.next() {
+                Some(f) => f.to_uppercase().collect::<String>() + c.as_str(),
+                None => String::new(),
+            }
+        })
+        .collect();
+    out.push(title.join(" "));
+    if words.len() >= 2 {
+        let mut rev = words.clone();
+        rev.reverse();
+        out.push(rev.join(" "));
+        let cut = rng.range(1, words.len() - 1);
+        let (a, b) = (words[..cut].join(" "), words[cut..].join(" "));
+        for op in ["OR", "or", "AND", "and", "NOT", "not", "Or", "And", "Not"] {
+            out.push(format!("{a} {op} {b}"));
+        }
+        // a proper sub-phrase and a super-phrase
+        out.push(a.clone());
+        out.push(b.clone());
+        out.push(format!("{base} {}", words[0]));
+    }
+    out.sort();
+    out.dedup();
+    out
+}
+
+/// C18: one database handle that sees many distinct phrases between two evaluations of the same
+/// texts (anything that remembers earlier lookups has a capacity; `n` sweeps well past small ones).
+pub fn c18_recurrence(ctx: &Ctx, pool: &PhrasePool, rng: &mut Rng, seed: u64, quick: bool) -> History {
+    let sizes: &[usize] = if quick { &[6, 12, 20, 36, 70, 140] } else { &[6, 12, 20, 36, 70, 140, 280, 560] };
+    let n = *rng.pick(sizes);
+    let probes: Vec<String> = (0..rng.range(2, 5)).map(|_| rng.pick(&pool.own).clone()).collect();
+    let probe_pool = PhrasePool { own: probes.clone(), ambiguous: probes.clone(), missing: pool.missing.clone() };
+    let mut fillers: Vec<String> = Vec::new();
+    let mut guard = 0;
+    while fillers.len() < n && guard < n * 20 {
+        guard += 1;
+        let f = rng.pick(&pool.own).clone();
+        if !fillers.contains(&f) && !probes.contains(&f) {
+            fillers.push(f);
+        }
+    }
+    let mut queries: Vec<QuerySpec> = Vec::new();
+    let probe_round = |queries: &mut Vec<QuerySpec>, rng: &mut Rng| {
+        for p in &probes {
+            queries.push(QuerySpec { text: p.clone(), describe: rng.chance(1, 2) });
+        }
+        for _ in 0..2 {
+            queries.push(QuerySpec { text: c18_text(&probe_pool, rng), describe: rng.chance(1, 2) });
+        }
+    };
+    probe_round(&mut queries, rng);
+    let rounds = rng.range(1, 3);
+    let mut at = 0;
+    for r in 0..rounds {
+        let take = if r + 1 == rounds { fillers.len() - at } else { rng.range(1, (fillers.len() - at).max(1)) };
+        for f in &fillers[at..at + take] {
+            queries.push(QuerySpec { text: f.clone(), describe: rng.chance(1, 2) });
+        }
+        at += take;
+        probe_round(&mut queries, rng);
+    }
+    // strictly one after the other: open, step to the end, close
+    let mut acts = Vec::new();
+    for i in 0..queries.len() {
+        acts.push(Act::Open(i));
+        for _ in 0..4 {
+            acts.push(Act::Step(i));
+        }
+        acts.push(Act::Close(i));
+    }
+    let nq = queries.len();
+    let steps = vec![
+        Step::Fabricate { state: state(true, MetaSpec::Current, IndexSpec::Complete) },
+        Step::Start { session: ctx.session(1, vec![], vec![Op::Open { slot: 0, mode: Mode::Disk, plan: Plan::default() }, Op::Interleave { slot: 0, queries, acts, iso_slot: 1, iso_fresh: Some(Mode::Disk) }]) },
+    ];
+    History { property: "C18".into(), seed, label: format!("{nq} queries one after the other on one disk database, {n} distinct phrases between repetitions"), steps }
+}
+
+/// C18 over families of confusable spellings of one to three facts.
+pub fn c18_confusable(ctx: &Ctx, pool: &PhrasePool, rng: &mut Rng, seed: u64) -> History {
+    let mut own = Vec::new();
+    for _ in 0..rng.range(1, 3) {
+        let base = loop {
+            let b = rng.pick(&pool.own).clone();
+            if b.split_whitespace().count() >= 2 || rng.chance(1, 8) {
+                break b;
+            }
+        };
+        own.extend(confusables(&base, rng));
+    }
+    let local = PhrasePool { own: own.clone(), ambiguous: own, missing: pool.missing.clone() };
+    let mut h = c18_random(ctx, &local, rng, seed);
+    h.label = format!("{} (confusable spellings)", h.label);
+    h
+}
+
 /// C18 with real caller threads on one database: who runs at every scheduling point (before each
 /// step, in the middle and at the end of every lookup) is drawn here.
 pub fn c18_threads(ctx: &Ctx, pool: &PhrasePool, rng: &mut Rng, seed: u64) -> History {
@@ -775,12 +882,33 @@ pub fn c19_query(pool: &PhrasePool, rng: &mut Rng) -> String {
             _ => format!("1 / {}", rng.range(2, 13)),
         }
     };
-    match rng.below(26) {
+    match rng.below(27) {
         20 | 21 => format!("{} {}", *rng.pick(&["1", "0.5", "0.25", "0.125", "0.2", "2", "1.0", "10", "0.1", "1.5", "0.01", "3"]), plural_unit(rng)),
         22 => format!("{} {} to {}", *rng.pick(&["1", "10", "100", "5", "0.5"]), plural_unit(rng), plural_unit(rng)),
         23 => format!("({})({})", small(rng), small(rng)),
         24 => format!("({})({})({})", small(rng), small(rng), small(rng)),
         25 => format!("({}) ({})", small(rng), small(rng)),
+        26 => {
+            // many results in one invocation (values and errors mixed). Groups without inner
+            // blanks, directly juxtaposed, are what this grammar turns into one result per group
+            // plus located errors for the parentheses in between.
+            let n = *rng.pick(&[5usize, 8, 13, 21, 34, 55]);
+            let tight = |rng: &mut Rng| -> String {
+                match rng.below(10) {
+                    0 => rng.range(0, 99).to_string(),
+                    1 => format!("{}+{}", rng.range(0, 99), rng.range(0, 99)),
+                    2 => "1m+1s".to_string(),
+                    3 => format!("{}/0", rng.range(1, 9)),
+                    4 => format!("{}{}", rng.range(1, 99), *rng.pick(&["m", "km", "s", "kg", "ton", "acre", "decade"])),
+                    5 => format!("1/{}", rng.range(2, 13)),
+                    6 => format!("{}foo", rng.range(1, 9)),
+                    7 => format!("2^{}", rng.range(30, 80)),
+                    8 => format!("{}/{}decades", rng.range(1, 20), rng.range(2, 9)),
+                    _ => format!("{}*{}", rng.range(1, 99), rng.range(1, 99)),
+                }
+            };
+            (0..n).map(|_| format!("({})", tight(rng))).collect::<Vec<_>>().join("")
+        }
         0 => int(rng),
         1 => dec(rng),
         2 => format!("{} / {}", int(rng), rng.range(1, 999)),
